@@ -97,6 +97,22 @@ pub fn gen_c01(out: &mut dyn Write, thorough: bool, seed: u64) {
     }
 }
 
+/// a second model over the same alphabet with fewer patterns and other weights (every other n-gram of `m`, signs flipped)
+pub fn thinned(m1: &crate::model::AbsModel) -> crate::model::AbsModel {
+    let mut m3 = m1.clone();
+    m3.bias = -m1.bias;
+    m3.char_ngrams = m1.char_ngrams.iter().enumerate().filter(|(i, _)| i % 2 == 0).map(|(_, x)| (x.0.clone(), x.1.iter().map(|w| -w).collect())).collect();
+    m3.type_ngrams = m1.type_ngrams.iter().enumerate().filter(|(i, _)| i % 2 == 1).map(|(_, x)| (x.0.clone(), x.1.iter().map(|w| -w).collect())).collect();
+    for tm in m3.tag_models.iter_mut() {
+        tm.char_ngrams = tm.char_ngrams.iter().enumerate().filter(|(i, _)| i % 2 == 1).map(|(_, x)| x.clone()).collect();
+        tm.type_ngrams = tm.type_ngrams.iter().enumerate().filter(|(i, _)| i % 2 == 0).map(|(_, x)| x.clone()).collect();
+        for b in tm.bias.iter_mut() {
+            *b = -*b;
+        }
+    }
+    m3
+}
+
 /// C06: tag prediction. Boundaries come from prediction, or are then edited (as a filter would) incl. unknowns.
 pub fn gen_c06(out: &mut dyn Write, thorough: bool, seed: u64) {
     use crate::model::{gen_tag_models, gen_text_tags};
@@ -128,6 +144,12 @@ pub fn gen_c06(out: &mut dyn Write, thorough: bool, seed: u64) {
             }
             writeln!(out, "H {CFG} {mt}^1{store} {ops},fill,obs:BKGIC,tspec:0 c06").unwrap();
         }
+        // the same text predicted first by another tag-predicting model over the same alphabet (more / fewer patterns):
+        // the tags must be those of the model that predicted last
+        let m3 = thinned(&m);
+        let text = gen_text_tags(&mut r, &m, &alpha, 14);
+        writeln!(out, "H {CFG} {mt}^1{store}!{}^11 Fraw:{},pred:0,pred:1,fill,obs:BKGIC,tspec:1 c06", m3.to_text(), hexs(&text)).unwrap();
+        writeln!(out, "H {CFG} {mt}^1{store}!{}^11 Fraw:{},pred:1,pred:0,fill,obs:BKGIC,tspec:0 c06", m3.to_text(), hexs(&text)).unwrap();
     }
 }
 
@@ -141,22 +163,31 @@ pub fn gen_c08(out: &mut dyn Write, thorough: bool, seed: u64) {
     let n_groups = if thorough { 4000 } else { 150 };
     let per_group = if thorough { 12 } else { 8 };
     for _ in 0..n_groups {
-        // four predictors: A tags+scores, B another model without tag prediction, C tags without scores, D tag prediction on a model without tag models
+        // five predictors: A tags+scores, B another model without tag prediction, C tags without scores, D tag prediction on a model without tag models, E see below
         let (mut m1, alpha) = gen_model(&mut r, &opts);
         gen_tag_models(&mut r, &mut m1, &alpha, 3);
         let (m2, _) = gen_model(&mut r, &opts);
+        // E: a second tag-predicting model over the SAME alphabet with fewer patterns (a thinned copy of m1 with other
+        // weights): positions where E matches nothing must not inherit the scorer states that A or C left there
+        let m3 = thinned(&m1);
         let specs = vec![
             format!("{}^11", m1.to_text()),
             format!("{}^00", m2.to_text()),
             format!("{}^10", m1.to_text()),
             format!("{}^11", m2.to_text()),
+            format!("{}^11", m3.to_text()),
         ];
-        let can_fill = [true, false, true, true];
+        let can_fill = [true, false, true, true, true];
         let built: Vec<_> = specs.iter().map(|s| build_pred(s).1).collect();
         if built.iter().any(|b| b.is_err()) {
             continue;
         }
         let preds: Vec<vaporetto::Predictor> = built.into_iter().map(|b| b.unwrap()).collect();
+        // targeted: the same text predicted by two different tag-predicting models in a row, tags filled by the second
+        for (a, b) in [(0, 4), (4, 0), (2, 4), (4, 3)] {
+            let x = gen_text_tags(&mut r, &m1, &alpha, 12);
+            writeln!(out, "H {CFG} {} raw:{},pred:{a},pred:{b},fill,obs c08", specs.join("!"), hexs(&x)).unwrap();
+        }
         for _ in 0..per_group {
             let mut s = vaporetto::Sentence::default();
             let mut ops: Vec<String> = vec![];
